@@ -170,3 +170,15 @@ func TestFinding_F19b_WatcherStopsWhenCancelledWithPendingNotification(t *testin
 		t.Fatalf("the watcher goroutine is still alive after cancellation (blocked on `change <- true`): its deferred close(change) never runs")
 	}
 }
+
+// F-09c: valid TOML with a date where a number is expected must yield an error, not a decoder panic.
+func TestFinding_F09c_DateWhereNumberExpectedDoesNotPanic(t *testing.T) {
+	defer func() {
+		if r := recover(); r != nil {
+			t.Fatalf("ParseData panicked: %v", r)
+		}
+	}()
+	if _, err := ParseData([]byte("[defaults]\nvelocity = 1979-05-27\n")); err == nil {
+		t.Fatalf("a date was accepted as velocity")
+	}
+}
